@@ -207,11 +207,23 @@ func (borderRadius *borderRadiusTracker) compactRules(rules []css_ast.Rule, keyR
 	}
 
 	// Insert the combined declaration where the last rule was
-	rules[borderRadius.corners[3].ruleIndex] = css_ast.Rule{Loc: minLoc, Data: &css_ast.RDeclaration{
+	lastRuleIndex := borderRadius.corners[0].ruleIndex
+	for _, corner := range borderRadius.corners[1:] {
+		if corner.ruleIndex > lastRuleIndex {
+			lastRuleIndex = corner.ruleIndex
+		}
+	}
+	rules[lastRuleIndex] = css_ast.Rule{Loc: minLoc, Data: &css_ast.RDeclaration{
 		Key:       css_ast.DBorderRadius,
 		KeyText:   "border-radius",
 		Value:     tokens,
 		KeyRange:  keyRange,
 		Important: borderRadius.important,
 	}}
+
+	// All corners now come from the combined declaration
+	for i := range borderRadius.corners {
+		borderRadius.corners[i].ruleIndex = lastRuleIndex
+		borderRadius.corners[i].wasSingleRule = false
+	}
 }
